@@ -113,9 +113,10 @@ AllBases(c, bo, fuel) ==
       RECURSIVE Cat(_)
       Cat(i) == IF i > Len(bs) THEN <<>> ELSE (IF bs[i] = NoObj THEN <<>> ELSE AllBases(bs[i], bo, fuel - 1)) \o Cat(i + 1)
   IN <<c>> \o Cat(1)
-\* Class.find(name) before post-processing (mro() falls back to allbases)
-FindIn(st, c, n, bo) ==
-  LET seq == AllBases(c, bo, 6)
+\* Class.find(name): first hit along Class.mro()
+\* lin: class id -> the sequence Class.mro() yields for it at this moment (allbases before post-processing, the MRO after)
+FindIn(st, c, n, lin) ==
+  LET seq == IF c \in DOMAIN lin THEN lin[c] ELSE <<c>>
       hits == {i \in 1..Len(seq) : n \in DOMAIN st.cont[seq[i]]}
   IN IF hits = {} THEN NoObj ELSE st.cont[seq[CHOOSE i \in hits : \A j \in hits : i <= j]][n]
 
@@ -154,6 +155,19 @@ FindObject(st, q, bo) ==
                IN Get(st, ExpandName(st, r, [j \in 1..(Len(q) - 1) |-> q[j + 1].b], bo))
 \* Documentable.resolveName: the expanded name looked up in the registry, falling back on find_object
 ResolveName(st, o, parts, bo) == FindObject(st, ExpandName(st, o, parts, bo), bo)
+
+\* C3 merge (mro.py / Python's type.mro): `bad` is the marker returned for an inconsistent hierarchy
+RECURSIVE MergeM(_, _, _)
+MergeM(seqs, fuel, bad) ==
+  LET ne == SelectSeq(seqs, LAMBDA s : s # <<>>)
+  IN IF ne = <<>> THEN <<>>
+     ELSE IF fuel = 0 THEN <<bad>>
+     ELSE LET good == {i \in 1..Len(ne) : \A j \in 1..Len(ne) : ne[i][1] \notin Rng(Tail(ne[j]))}
+          IN IF good = {} THEN <<bad>>                                  \* inconsistent hierarchy
+             ELSE LET h == ne[CHOOSE i \in good : \A j \in good : i <= j][1]
+                      rest == [i \in 1..Len(ne) |-> SelectSeq(ne[i], LAMBDA x : x # h)]
+                  IN <<h>> \o MergeM(rest, fuel - 1, bad)
+Merge(seqs, fuel) == MergeM(seqs, fuel, 0)
 
 \* ---------------------------------------------------------------- C02 : the registry invariants
 Live(st) == 1..Len(st.objs)
